@@ -148,7 +148,8 @@ RRemove(s, e) ==
 
 \* operations outside the tracked reference system: no rule except "no panic"
 RFree(s, e) ==
-  IF e.res = "panic" \/ e.res = "abort" THEN Out(Verdict("Handoff.C04", e.op), s, slots)
+  IF e.res = "panic" \/ e.res = "abort"
+  THEN Out(Verdict(IF cs.c.nopanic THEN "Fault.panic" ELSE "Handoff.C04", e.op), s, slots)
   ELSE Out(Good, FreeF(s, e.o), slots)
 
 \* a jump with call-stack reset keeps globals and counts, abandons tunnels, threads, functions (C17)
